@@ -281,8 +281,8 @@ func Run(cfg hx.Config) error {
 	c := &checker{r: r, s: ctrl.NewSession(r)}
 	c.known()
 
-	nScen := cfg.N(4, 60)
-	nPairs := cfg.N(30, 400)
+	nScen := cfg.N(12, 200)
+	nPairs := cfg.N(40, 300)
 	for i := 0; i < nScen && !r.Stop() && !c.s.Lost; i++ {
 		sc := genScenario(rnd)
 		// fault-free run: the call sequence and its length
